@@ -637,6 +637,86 @@ def run_specs(ctx, runner, specs, cases, canary_every=60):
     return nfail
 
 
+
+# ----------------------------------------------------------------------------------------------------
+# a client that neither reads nor goes away (oracle only: blocking is not an event of Model/Handle.v)
+# ----------------------------------------------------------------------------------------------------
+class WorkerStuck(BaseException):
+    """the worker called a send-type operation in BLOCKING mode on a socket whose peer does not read and whose buffer is full:
+    on a real socket the call never returns"""
+
+
+class SilentSock(L.TSock):
+    """scripted client socket whose peer has stopped reading with the send buffer full: a send-type operation raises
+    BlockingIOError(EAGAIN) in non-blocking mode, socket.timeout under a timeout, and never returns in blocking mode"""
+
+    def __init__(self, trace, segs):
+        L.TSock.__init__(self, trace, segs=segs)
+        self.timeout = None
+
+    def setblocking(self, b):
+        self.blocking = bool(b)
+        self.timeout = None if b else 0.0
+
+    def settimeout(self, t):
+        self.timeout = t
+        self.blocking = t is None or t > 0
+
+    def gettimeout(self):
+        return self.timeout
+
+    def _full(self, kind, data):
+        import errno as _e
+        import socket as _s
+        if self.timeout is None:
+            self.trace.append(("stuck", kind, len(data)))
+            raise WorkerStuck(kind)
+        if self.timeout == 0.0:
+            self.trace.append((kind, data, 4))
+            raise BlockingIOError(_e.EAGAIN, "Resource temporarily unavailable")
+        self.trace.append((kind, data, 4))
+        raise _s.timeout("timed out")
+
+    def sendall(self, data):
+        self._full("sendall", bytes(data))
+
+    def send(self, data):
+        self._full("send100", bytes(data))
+
+    def sendfile(self, file, offset=0, count=None):
+        self._full("sendfile", b"")
+
+
+def silent_client_cases(ctx, runner):
+    """every rejected stream of the corpus, every worker wrapper, the client silent from the moment the server answers: the error
+    reply is best effort, the worker must not wait for this client"""
+    nfail = 0
+    streams = [(k, v) for k, v in sorted(BAD.items()) if v] + [("pipelined-bad", GET + BAD["badhdr"])]
+    for kind in KINDS:
+        for name, data in streams:
+            W = runner.world(kind, "default")
+            W.begin(apps=[dict(OK_APP), dict(OK_APP)])
+            sock = SilentSock(W.trace, [data])
+            esc = W.serve(sock, ("10.0.0.1", 4321))
+            stuck = [e for e in W.trace if e[0] == "stuck"]
+            rejected = any(e[0] == "praise" for e in W.trace)
+            ctx.count_case(("silent", kind, name), True)
+            ctx.hist("silent_client", "rejected" if rejected else "served / incomplete")
+            sock.dispose()
+            runner.drop(kind, "default")          # (a response cut by the silent client may leave the wrapper mid-state)
+            # only the reply to a REJECTED request is judged: a sync worker writing an application's response to a client that
+            # does not read waits for it by design
+            if stuck and rejected and W.app_calls == 0:
+                nfail += 1
+                if len(ctx.violations) < 3:
+                    ctx.violation("worker-stuck [%s worker]: answering the rejected request %r it called %s (%d bytes) in blocking mode on a socket "
+                                  "whose peer does not read: the call never returns, the worker serves nobody else (and is killed by the arbiter's timeout)"
+                                  % (kind, name, stuck[0][1], stuck[0][2]),
+                                  {"kind": "silent-client", "worker": kind, "stream": data.decode("latin-1"), "name": name,
+                                   "failures": [["worker-stuck", stuck[0][1]]]})
+    return nfail
+
+
 def run(ctx):
     ok = ctx.build()
     L.table_classes()
@@ -660,6 +740,7 @@ def run(ctx):
                 nfail += 1
                 ctx.violation("%s [%s worker, %s]: %s" % (cf[0][0], kind, variant, cf[0][1]),
                               {"kind": "canary", "spec": enc(cs), "failures": [list(f) for f in cf]})
+        nfail += silent_client_cases(ctx, runner)
     finally:
         runner.close()
     ctx.cov["rule"] = ("one connection per case on a shared worker object (sync / gthread / async wrapper; cfg variants default, "
@@ -718,6 +799,19 @@ def search(ctx, seeds, fixtures):
 
 
 def replay(rep):
+    if rep.get("kind") == "silent-client":
+        runner = Runner()
+        try:
+            W = runner.world(rep["worker"], "default")
+            W.begin(apps=[dict(OK_APP), dict(OK_APP)])
+            sock = SilentSock(W.trace, [rep["stream"].encode("latin-1")])
+            esc = W.serve(sock, ("10.0.0.1", 4321))
+            for e in W.trace:
+                print(e if len(repr(e)) < 300 else repr(e)[:300] + "...")
+            print("escaped:", repr(esc))
+            return 1 if any(e[0] == "stuck" for e in W.trace) and W.app_calls == 0 else 0
+        finally:
+            runner.close()
     spec = dec(rep["spec"])
     runner = Runner()
     try:
